@@ -1,7 +1,46 @@
 (* C10 entry: which < 50 packing / marks (Model/Kafka.v; which = 5 the consumer group end to end, Model/KafkaGroup.v),
    which >= 50 the frontier clause on pipeline traces *)
-From Verif Require Import Base.Sx Model.Kafka Model.KafkaGroup Model.PipeEntry.
+From Coq Require Import ZArith List Bool.
+From Verif Require Import Base.Sx Model.Kafka Model.KafkaGroup Model.PipeGlue Model.PipeEntry Gen.BatcherGen.
+Import ListNotations.
+Open Scope Z_scope.
+
+(* ---- monitor 18: the frontier clause for commit notifications that do NOT come from the output ---------------------
+   The input is told "record (source, offset) is finished" (label 4 38, InputPlugin.Commit) on two kinds of paths:
+   through the output (the record was handed to the output, label 3 32, and the output / its batcher acknowledged it), or
+   directly from the processor (an action discarded / collapsed it, a time-out, ...).  Monitor 8 states the frontier clause
+   for every notification; with spread routing it fails on the output path (known finding: one partition is spread over
+   all processors).  Monitor 18 is the same clause restricted to the notifications of records that were never handed to
+   the output: such a notification says nothing about EARLIER records of the partition, so every accepted record of the
+   source with a smaller offset must be finished (notified, or dropped by an action: label 4 33 with notify = 0, back = 1)
+   at that moment.  `outs` = (stream, seq) of the events handed to the output so far. *)
+Fixpoint m_direct_frontier (es : list pentry) (fin : list (Z * Z)) (accepted : list (Z * Z))
+                           (key_of : list ((Z * Z) * (Z * Z))) (outs : list (Z * Z)) : bool :=
+  match es with
+  | [] => true
+  | e :: r =>
+      if is_k 2 20 e && (pd e =? 0) then
+        m_direct_frontier r fin ((pb e, pc e) :: accepted) (((poi e, pa e), (pb e, pc e)) :: key_of) outs
+      else if is_k 3 32 e then m_direct_frontier r fin accepted key_of ((pa e, pb e) :: outs)
+      else if is_k 4 33 e && (pc e =? 2) && ((pd e =? 0) || (pd e =? 2)) then
+        match find (fun kv => key_eqb (fst kv) (pa e, pb e)) key_of with
+        | Some kv => m_direct_frontier r (snd kv :: fin) accepted key_of outs
+        | None => m_direct_frontier r fin accepted key_of outs
+        end
+      else if is_k 4 38 e then
+        let src := pd e in let off := pc e in
+        (mem_key (pa e, pb e) outs ||
+         forallb (fun k => negb (fst k =? src) || negb (snd k <? off) || mem_key k fin) accepted) &&
+        m_direct_frontier r ((src, off) :: fin) accepted key_of outs
+      else m_direct_frontier r fin accepted key_of outs
+  end.
+
+Definition c10_mon18 (c : pcfg) (es : list pentry) : list (Z * bool) :=
+  c10_mon c es ++ [(18, m_direct_frontier es [] [] [] [])].
+
+Definition c10_pipe_entry18 (which : Z) (case obs : sx) : verdict := pipe_run batcher_atomic_push c10_mon18 case obs.
+
 Definition c10_full_entry (which : Z) (case obs : sx) : verdict :=
-  if 50 <=? which then c10_pipe_entry which case obs
+  if 50 <=? which then c10_pipe_entry18 which case obs
   else if which =? 5 then c10_group_run case obs
   else c10_entry which case obs.
